@@ -381,6 +381,42 @@ async fn history(storage: &StrongholdStorage, t: &mut Tape) -> Outcome {
           if r.is_ok() { "Ok" } else { "Err" }
         ));
         let sha256 = serde_json::to_value(&pk).ok().map(|v| v["alg"] == ProofAlgorithm::BLS12381_SHA256.to_string().as_str()).unwrap_or(false);
+        // update_signature (validity timeframe update of a BBS+ signature) for the same key id and public JWK: both
+        // messages are replaced. For the key id of an Ed25519 key or an absent key id nothing may be returned; for a
+        // BBS+ key id with its own public JWK the updated signature verifies over the new messages under that JWK.
+        {
+          let new_messages = vec![format!("n{step}").into_bytes(), b"second'".to_vec()];
+          let upd = identity_storage::ProofUpdateCtx {
+            old_start_validity_timeframe: messages[0].clone(),
+            new_start_validity_timeframe: new_messages[0].clone(),
+            old_end_validity_timeframe: messages[1].clone(),
+            new_end_validity_timeframe: new_messages[1].clone(),
+            index_start_validity_timeframe: 0,
+            index_end_validity_timeframe: 1,
+            number_of_signed_messages: 2,
+          };
+          // the signature to update: the one just made if there is one, otherwise 80 bytes of a valid signature made with
+          // another stored BBS+ key (so that the bytes parse)
+          let base_sig: Option<Vec<u8>> = match &r {
+            Ok(s) => Some(s.clone()),
+            Err(_) => storage.sign_bbs(&KeyId::new(bls[0].0.clone()), &messages, &header, &bls[0].1).await.ok(),
+          };
+          if let Some(base_sig) = base_sig {
+            let u = storage.update_signature(&KeyId::new(id.clone()), &pk, &base_sig, upd).await;
+            out.trace.push(format!("op{step} update_signature({id}) -> {}", if u.is_ok() { "Ok" } else { "Err" }));
+            match (u, &own) {
+              (Ok(_), None) => viol(&mut out, "C15.deleted_or_unknown_does_not_sign", "stronghold/update_signature/missing-key-signed", format!("update_signature succeeded for absent key id {id}")),
+              (Ok(_), Some(_)) if !own_is_bls => viol(&mut out, "C15.signature_verifies_under_own_key", "stronghold/update_signature/ed25519-key-id-signs-bbs", format!("update_signature returned a BBS+ signature for {id}, the key id of an Ed25519 key")),
+              (Ok(updated), Some(own)) => {
+                if r.is_ok() && sha256 && pk_is_own && !bbs_verify(own, &new_messages, &header, &updated) {
+                  viol(&mut out, "C15.signature_verifies_under_own_key", "stronghold/update_signature/does-not-verify", format!("updated BBS+ signature for {id} does not verify over the updated messages under its public JWK"));
+                }
+              }
+              (Err(e), Some(_)) if own_is_bls && pk_is_own && r.is_ok() => viol(&mut out, "C15.sign_succeeds", "stronghold/update_signature/refused", format!("update_signature failed for present key {id} with its own public JWK: {e}")),
+              (Err(_), _) => {}
+            }
+          }
+        }
         match (r, own) {
           (Ok(sig), Some(own)) => {
             if !own_is_bls {
